@@ -6,7 +6,7 @@ out=seeded/REGRESSION.txt; : > $out.tmp
 for d in seeded/C*/; do
   id=$(basename $d); prop=${id%%-*}
   git -C /repo diff --quiet || { echo "/repo is dirty"; exit 2; }
-  git -C /repo apply $d/patch.diff 2>/dev/null || { echo "$id patch-does-not-apply" >> $out.tmp; continue; }
+  git -C /repo apply /verif/$d/patch.diff 2>/dev/null || { echo "$id patch-does-not-apply" >> $out.tmp; continue; }
   s=$(date +%s); o=$(./run $prop quick 2>&1); rc=$?
   git -C /repo checkout -- .
   echo "$id $prop quick exit=$rc violations=$(echo "$o" | grep -c '^VIOLATION') $(( $(date +%s)-s ))s" >> $out.tmp
